@@ -29,13 +29,15 @@
                         request's parent is pending and delivered; deps >= number of
                         pending children; a delivered request's children are available
                         or pending under it; membatch ∪ store closed under children).
+   ROUND 3: C12_nothing_lost  FULL (both schemes, with callback, every per-depth bound,
+     all histories): no pending request ever leaves the queue without being handed out.
    NOT PROVED: completeness through the account callback (storage tries and codes:
      the lemmas inv_upd / inv_sched / inv_remove / inv_cnr are general, what is missing
      is children_loop with on_account, process_code and Commit inside a history),
      deps = (not just >=) the number of pending children, sync_progress,
      sync_order_irrelevant, and everything about completeness in the PATH scheme (needs
      the prefix argument that deletions never hit a completed subtree). *)
-From GV Require Import Trie.Node Trie.Hash Storage.KV Trie.Sync Trie.SyncProofs Trie.SyncInv Trie.SyncComplete.
+From GV Require Import Trie.Node Trie.Hash Storage.KV Trie.Sync Trie.SyncProofs Trie.SyncInv Trie.SyncComplete Trie.SyncQueue.
 
 (* the delivery composition (hash check, then ProcessNode) rejects a blob whose hash
    differs from the requested one and changes nothing *)
@@ -159,6 +161,31 @@ Theorem C12_sync_complete_partial :
     forall p h cb, RN H T root CbNone p h cb -> has h (sc_db s') = true.
 Proof. exact sync_complete_nocallback. Qed.
 Print Assumptions C12_sync_complete_partial.
+
+(* NOTHING IS LOST FROM THE QUEUE (liveness-relevant, both schemes, with the account
+   callback, EVERY per-depth bound).  op3 histories: Missing with an arbitrary bound mfd
+   for maxFetchesPerDepth and an arbitrary batch size, node / code deliveries (hash
+   check, then ProcessNode / ProcessCode), Commit, in any order.  After any history every
+   node request that is still undelivered and every code request is in the priority
+   queue or has been handed out by one of the Missing calls (second component of the
+   run = everything Missing returned).  The per-depth throttle peeks, and leaves the item
+   queued when it stops; a variant that pops first violates this (C12_small_bounds). *)
+Theorem C12_nothing_lost :
+  forall (H : list N -> list N) (path_scheme : bool) (db : kv) (root : list N) (cb : cbkind)
+         (ops : list op3),
+    let s0 := match new_sync H path_scheme db root cb with inl x => x | inr x => x end in
+    qinv (snd (run3 H (s0, []) ops)) (fst (run3 H (s0, []) ops)).
+Proof.
+  intros H ps db root cb ops s0. apply qinv_run3. apply qinv_new_sync.
+Qed.
+Print Assumptions C12_nothing_lost.
+
+(* the model run with small bounds (0, 1: the throttle engages on a branch with three
+   leaves; 16384: it does not): the sync completes, 4 nodes stored, the queue invariant
+   holds after every Missing; the pop-first variant with bound 0 loses requests: the
+   drive ends with 2 requests pending that Missing never returns *)
+Example C12_small_bounds : q_check = true /\ q_check_bad = true.
+Proof. split; vm_compute; reflexivity. Qed.
 
 (* non-vacuity: a one-leaf trie synced under a 32-byte toy hash: the history (Missing,
    a corrupted delivery, the delivery, a duplicate, Commit) satisfies run_wf, one
